@@ -1032,6 +1032,23 @@ def generate(unit, template_path, canary=False, extra_fns=()):
                     g.rewrites.append({"rule": "R3+R10", "where": where, "before": body[a:be], "after": new})
                     body = body[:a] + new + body[be:]
             for pos, anchor, text in spec["inserts"]:
+                if pos == "loop-end":
+                    # anchor = loop selector (ordinal or /header regex/): the text goes to the END of that loop's body
+                    sel = int(anchor) if anchor.isdigit() else anchor.strip("/")
+                    ln = resolve_loop(sel, body, where)
+                    bm = mask_rust(body)
+                    spans = loop_spans(bm)
+                    if ln is None or ln >= len(spans):
+                        g.rewrites.append({"rule": "R10", "where": where, "before": f"loop-end {anchor}", "after": text[:80], "missed": True})
+                        continue
+                    _, b_open, b_close = spans[ln]
+                    k_ = b_close - 1
+                    while k_ > b_open and bm[k_] in " \n\t":
+                        k_ -= 1
+                    sep = "" if bm[k_] in ";{}" else ";"
+                    body = body[:k_ + 1] + sep + " " + text + " " + body[k_ + 1:]
+                    g.rewrites.append({"rule": "R10", "where": where, "before": f"loop-end {anchor}", "after": text[:80]})
+                    continue
                 if pos in ("after-stmt", "before-stmt"):
                     # anchor = `<regex>[#k]`: the k-th statement whose text matches the regex from its first token on
                     # (e.g. `let\s+rhs\s*=`): independent of WHICH function the statement calls
@@ -1127,10 +1144,14 @@ def generate(unit, template_path, canary=False, extra_fns=()):
                 # R10: proof text placed before the closing brace of the body (only sound for bodies whose last
                 # statement ends with `;` - i.e. unit-valued blocks such as match arms)
                 g.rewrites.append({"rule": "R10", "where": where, "before": "}", "after": spec["epilogue"].strip() + " }"})
-                inner = body[:-1].rstrip()
+                bm_ = mask_rust(body)
+                k_ = len(body) - 2
+                while k_ > 0 and bm_[k_] in " \n\t":      # last CODE character (trailing comments are blank in the mask)
+                    k_ -= 1
+                inner, trailing = body[:k_ + 1], body[k_ + 1:-1]
                 if inner and inner[-1] not in ";{}":
                     inner += ";"        # unit-valued tail expression of the arm block becomes a statement
-                body = inner + " " + spec["epilogue"].strip() + " }"
+                body = inner + " " + spec["epilogue"].strip() + " " + trailing.rstrip() + "\n}"
             if canary:
                 # vacuity canary: `assert(false)` right after the prologue must FAIL, i.e. the function's
                 # requires together with the axioms in scope must be satisfiable
